@@ -1,0 +1,569 @@
+//go:build verif
+
+// Contracts (//@ lines) and specification functions for package ast.
+// Compiled only with -tags verif; adds no behaviour.
+package ast
+
+import (
+	"reflect"
+	"strings"
+
+	"github.com/xjslang/xjs/sourcemap"
+	"github.com/xjslang/xjs/token"
+)
+
+func old[T any](x T) T       { return x }
+func implies(a, b bool) bool { return !a || b }
+func ite[T any](c bool, a, b T) T {
+	if c {
+		return a
+	}
+	return b
+}
+func forall(lo, hi int, f func(int) bool) bool {
+	for i := lo; i < hi; i++ {
+		if !f(i) {
+			return false
+		}
+	}
+	return true
+}
+func eq[T any](a, b T) bool { return reflect.DeepEqual(a, b) }
+func isNil(x any) bool {
+	if x == nil {
+		return true
+	}
+	v := reflect.ValueOf(x)
+	return v.Kind() == reflect.Ptr && v.IsNil()
+}
+func isType[T any](x any) bool          { _, ok := x.(T); return ok }
+func built(b strings.Builder) string    { return b.String() }
+func push[T any](s []T, x T) []T        { return append(append([]T{}, s...), x) }
+func foldH[S any](stepByte func(S, byte) S, stepStr func(S, string) S, init S, s string) S {
+	return init
+}
+
+// ghost call trace (evaluated by the verifier per path; inert when executed)
+type ev struct{}
+
+func ncalls(name string) int                       { return 0 }
+func callArg[T any](name string, k int, i int) T   { var z T; return z }
+func callResult[T any](name string, k int) T       { var z T; return z }
+func callOrder(a string, i int, b string, j int) bool { return true }
+func traceSeq(evs ...ev) bool                      { return true }
+func fullSeq(evs ...ev) bool                       { return true }
+func evLC(comments []string) ev                    { return ev{} }
+func evMap(pos token.Position) ev                  { return ev{} }
+func evNamedMap(line int, col int, name string) ev { return ev{} }
+func evStr(s string) ev                            { return ev{} }
+func evRune(r rune) ev                             { return ev{} }
+func evSemi() ev                                   { return ev{} }
+func evNode(n Node) ev                             { return ev{} }
+func evChild(p any) ev                             { return ev{} }
+func evCall(name string) ev                        { return ev{} }
+func evSpace() ev                                  { return ev{} }
+func evNewline() ev                                { return ev{} }
+func evIndent() ev                                 { return ev{} }
+func evInc() ev                                    { return ev{} }
+func evDec() ev                                    { return ev{} }
+func evOpt(cond bool, e ev) ev                        { return ev{} }
+func atEntry[T any](x T) T                         { return x }
+
+// ---- precedence levels (C03): the ECMAScript classes, written with this package's constants ----
+
+// astLevel: binding-power class of an operator token (PrecedenceLowest for other tokens).
+func astLevel(t token.Type) int {
+	switch t {
+	case token.ASSIGN, token.PLUS_ASSIGN, token.MINUS_ASSIGN:
+		return PrecedenceAssignment
+	case token.OR:
+		return PrecedenceLogicalOr
+	case token.AND:
+		return PrecedenceLogicalAnd
+	case token.EQ, token.NOT_EQ:
+		return PrecedenceEquality
+	case token.LT, token.GT, token.LTE, token.GTE:
+		return PrecedenceComparison
+	case token.PLUS, token.MINUS:
+		return PrecedenceSum
+	case token.MULTIPLY, token.DIVIDE, token.MODULO:
+		return PrecedenceProduct
+	case token.INCREMENT, token.DECREMENT:
+		return PrecedencePostfix
+	case token.LPAREN:
+		return PrecedenceCall
+	case token.DOT, token.LBRACKET:
+		return PrecedenceMember
+	}
+	return PrecedenceLowest
+}
+
+// AstLevel: exported for the cross-package agreement lemma in package parser.
+func AstLevel(t token.Type) int { return astLevel(t) }
+
+// Parenthesisation rule of a stratified left-associative grammar: an operand must be bracketed iff it binds looser than
+// its position requires -- strictly looser on the left, looser or equal on the right (left associativity); operands of
+// unary and postfix operators: strictly looser than the operator.
+func parensLeft(parent int, child int) bool  { return child < parent }
+func parensRight(parent int, child int) bool { return child <= parent }
+
+//@ globalinv [levels.order@C03] PrecedenceLowest < PrecedenceAssignment && PrecedenceAssignment < PrecedenceLogicalOr && PrecedenceLogicalOr < PrecedenceLogicalAnd && PrecedenceLogicalAnd < PrecedenceEquality && PrecedenceEquality < PrecedenceComparison && PrecedenceComparison < PrecedenceSum && PrecedenceSum < PrecedenceProduct && PrecedenceProduct < PrecedenceUnary && PrecedenceUnary < PrecedencePostfix && PrecedencePostfix < PrecedenceCall && PrecedenceCall < PrecedenceMember && PrecedenceMember < PrecedenceAtomic
+
+//@ func operatorPrecedence
+//@   props C03 C02
+//@   ensures [level@C03] result == astLevel(tokenType)
+
+// ---- the code writer (C06 C08 C15) ----
+
+// gpos: generated position, defined over the write history of the buffer: a byte write is a column step or a line
+// break, a string write advances like the source mapper's AdvanceString (line breaks \n, \r\n, \r once each).
+type gpos struct {
+	line int
+	col  int
+}
+
+func gposInit() gpos { return gpos{} }
+func gposByte(S gpos, c byte) gpos {
+	if c == '\n' {
+		return gpos{line: S.line + 1, col: 0}
+	}
+	return gpos{line: S.line, col: S.col + 1}
+}
+func gposStr(S gpos, s string) gpos {
+	return gpos{line: S.line + sourcemap.Brk(s, len(s)), col: sourcemap.ColAfter(S.col, s, len(s))}
+}
+
+// J: the source mapper's cursor is the generated position of everything written so far.
+func J(cw *CodeWriter) bool {
+	return cw.Mapper == nil || foldH(gposByte, gposStr, gposInit(), built(cw.Builder)) == gpos{line: sourcemap.GenLine(cw.Mapper), col: sourcemap.GenCol(cw.Mapper)}
+}
+
+// cwInv: compact mode never defers whitespace and never indents; pending entries are layout characters only.
+func cwInv(cw *CodeWriter) bool {
+	return cw.IndentLevel >= 0 && implies(!cw.PrettyPrint, len(cw.pendings) == 0 && cw.IndentLevel == 0) &&
+		(cw.Mapper == nil || sourcemap.SmInv(cw.Mapper)) &&
+		forall(0, len(cw.pendings), func(i int) bool { return cw.pendings[i] == ' ' || cw.pendings[i] == '\n' || cw.pendings[i] == '\t' })
+}
+
+// What every writer method and every printer may touch: the buffer, the deferred layout, the indent level and the
+// mapper's state. Options (PrettyPrint, IndentString, WriteSemicolons, the Mapper pointer) and the tree are not in it.
+//@ group cwFrame
+//@   requires [cw] cw != nil && cwInv(cw) && J(cw)
+//@   modifies cw.Builder, cw.pendings, cw.IndentLevel
+//@   modifies cw.Mapper.generatedLine, cw.Mapper.generatedColumn, cw.Mapper.mappings, cw.Mapper.names, cw.Mapper.nameIndex[*]
+//@   ensures [cwinv@C06,C08] cwInv(cw)
+//@   ensures [J@C08] J(cw)
+
+// Layout-only methods write nothing and record no mapping.
+//@ group layoutOnly
+//@   ensures [no-output@C06] eq(cw.Builder, old(cw.Builder))
+//@   ensures [no-mapping@C08] cw.Mapper == nil || sourcemap.NumMappings(cw.Mapper) == old(sourcemap.NumMappings(cw.Mapper))
+//@   ensures [compact.noop@C06] implies(!cw.PrettyPrint, len(cw.pendings) == 0 && cw.IndentLevel == old(cw.IndentLevel))
+
+//@ func (cw *CodeWriter) emit
+//@   props C08 C06 C15
+//@   use cwFrame
+//@   ensures [pendings] eq(cw.pendings, old(cw.pendings)) && cw.IndentLevel == old(cw.IndentLevel)
+//@   ensures [no-mapping@C08] cw.Mapper == nil || sourcemap.NumMappings(cw.Mapper) == old(sourcemap.NumMappings(cw.Mapper))
+
+//@ func (cw *CodeWriter) clearPending
+//@   props C06 C08
+//@   requires [cw] cw != nil
+//@   modifies cw.pendings
+//@   ensures [cleared] len(cw.pendings) == 0
+
+//@ func (cw *CodeWriter) writeNewline
+//@   props C06 C08 C15
+//@   use cwFrame
+//@   ensures [pendings] eq(cw.pendings, old(cw.pendings)) && cw.IndentLevel == old(cw.IndentLevel)
+//@   ensures [no-mapping@C08] cw.Mapper == nil || sourcemap.NumMappings(cw.Mapper) == old(sourcemap.NumMappings(cw.Mapper))
+
+//@ func (cw *CodeWriter) writeIndent
+//@   props C06 C08 C15
+//@   use cwFrame
+//@   loop 1 invariant [frame] cwInv(cw) && J(cw) && eq(cw.pendings, old(cw.pendings)) && cw.IndentLevel == old(cw.IndentLevel) && (cw.Mapper == nil || sourcemap.NumMappings(cw.Mapper) == old(sourcemap.NumMappings(cw.Mapper)))
+//@   ensures [pendings] eq(cw.pendings, old(cw.pendings)) && cw.IndentLevel == old(cw.IndentLevel)
+//@   ensures [no-mapping@C08] cw.Mapper == nil || sourcemap.NumMappings(cw.Mapper) == old(sourcemap.NumMappings(cw.Mapper))
+
+//@ func (cw *CodeWriter) flushPending
+//@   props C06 C08 C15
+//@   use cwFrame
+//@   loop 1 invariant [frame] cwInv(cw) && J(cw) && cw.IndentLevel == old(cw.IndentLevel) && eq(cw.pendings, old(cw.pendings)) && (cw.Mapper == nil || sourcemap.NumMappings(cw.Mapper) == old(sourcemap.NumMappings(cw.Mapper))) && implies(!cw.PrettyPrint, eq(cw.Builder, old(cw.Builder)))
+//@   ensures [flushed] len(cw.pendings) == 0 && cw.IndentLevel == old(cw.IndentLevel)
+//@   ensures [compact.nothing@C06] implies(!cw.PrettyPrint, eq(cw.Builder, old(cw.Builder)))
+//@   ensures [no-mapping@C08] cw.Mapper == nil || sourcemap.NumMappings(cw.Mapper) == old(sourcemap.NumMappings(cw.Mapper))
+
+//@ func (cw *CodeWriter) WriteString
+//@   props C06 C08 C15 C01
+//@   use cwFrame
+//@   ensures [flushed] len(cw.pendings) == 0 && cw.IndentLevel == old(cw.IndentLevel)
+//@   ensures [no-mapping@C08] cw.Mapper == nil || sourcemap.NumMappings(cw.Mapper) == old(sourcemap.NumMappings(cw.Mapper))
+
+// WriteRune is used for single ASCII characters other than carriage return.
+//@ func (cw *CodeWriter) WriteRune
+//@   props C06 C08 C15 C01
+//@   use cwFrame
+//@   requires [ascii] 0 <= r && r < 128 && r != '\r'
+//@   ensures [flushed] len(cw.pendings) == 0 && cw.IndentLevel == old(cw.IndentLevel)
+//@   ensures [no-mapping@C08] cw.Mapper == nil || sourcemap.NumMappings(cw.Mapper) == old(sourcemap.NumMappings(cw.Mapper))
+
+// The semicolon option decides only whether the terminator is written.
+//@ func (cw *CodeWriter) WriteSemi
+//@   props C06 C08 C01
+//@   use cwFrame
+//@   ensures [semi@C06] ncalls("(*CodeWriter).WriteRune") == ite(!cw.PrettyPrint || cw.WriteSemicolons, 1, 0) && implies(ncalls("(*CodeWriter).WriteRune") == 1, callArg[rune]("(*CodeWriter).WriteRune", 0, 1) == ';')
+//@   ensures [nothing@C06] implies(cw.PrettyPrint && !cw.WriteSemicolons, eq(cw.Builder, old(cw.Builder)) && eq(cw.pendings, old(cw.pendings)))
+//@   ensures [indent] cw.IndentLevel == old(cw.IndentLevel)
+//@   ensures [no-mapping@C08] cw.Mapper == nil || sourcemap.NumMappings(cw.Mapper) == old(sourcemap.NumMappings(cw.Mapper))
+
+//@ func (cw *CodeWriter) String
+//@   props C06 C14
+//@   requires [cw] cw != nil
+
+//@ func (cw *CodeWriter) IncreaseIndent
+//@   props C06 C08
+//@   use cwFrame layoutOnly
+//@   ensures [inc@C06] implies(cw.PrettyPrint, cw.IndentLevel == old(cw.IndentLevel)+1) && eq(cw.pendings, old(cw.pendings))
+
+//@ func (cw *CodeWriter) DecreaseIndent
+//@   props C06 C08
+//@   use cwFrame layoutOnly
+//@   ensures [dec@C06] implies(cw.PrettyPrint && old(cw.IndentLevel) > 0, cw.IndentLevel == old(cw.IndentLevel)-1) && implies(old(cw.IndentLevel) == 0, cw.IndentLevel == 0) && eq(cw.pendings, old(cw.pendings))
+
+//@ func (cw *CodeWriter) WriteIndent
+//@   props C06 C08
+//@   use cwFrame layoutOnly
+//@   ensures [indent] cw.IndentLevel == old(cw.IndentLevel)
+//@   ensures [pending@C06] implies(cw.PrettyPrint && (len(old(cw.pendings)) == 0 || old(cw.pendings)[len(old(cw.pendings))-1] != '\t'), eq(cw.pendings, push(old(cw.pendings), '\t')))
+//@   ensures [pending.dedup@C06] implies(cw.PrettyPrint && len(old(cw.pendings)) > 0 && old(cw.pendings)[len(old(cw.pendings))-1] == '\t', eq(cw.pendings, old(cw.pendings)))
+
+//@ func (cw *CodeWriter) WriteNewline
+//@   props C06 C08
+//@   use cwFrame layoutOnly
+//@   ensures [indent] cw.IndentLevel == old(cw.IndentLevel)
+//@   ensures [pending@C06] implies(cw.PrettyPrint, len(cw.pendings) == 1 && cw.pendings[0] == '\n')
+
+//@ func (cw *CodeWriter) WriteSpace
+//@   props C06 C08
+//@   use cwFrame layoutOnly
+//@   ensures [indent] cw.IndentLevel == old(cw.IndentLevel)
+//@   ensures [pending@C06] implies(cw.PrettyPrint && (len(old(cw.pendings)) == 0 || old(cw.pendings)[len(old(cw.pendings))-1] != ' '), eq(cw.pendings, push(old(cw.pendings), ' ')))
+//@   ensures [pending.dedup@C06] implies(cw.PrettyPrint && len(old(cw.pendings)) > 0 && old(cw.pendings)[len(old(cw.pendings))-1] == ' ', eq(cw.pendings, old(cw.pendings)))
+
+// A mapping is recorded at the mapper's current generated position and points at the given source position.
+//@ func (cw *CodeWriter) AddMapping
+//@   props C08
+//@   use cwFrame
+//@   ensures [unchanged] eq(cw.Builder, old(cw.Builder)) && eq(cw.pendings, old(cw.pendings)) && cw.IndentLevel == old(cw.IndentLevel)
+//@   ensures [recorded@C08] cw.Mapper == nil || (sourcemap.NumMappings(cw.Mapper) == old(sourcemap.NumMappings(cw.Mapper))+1 && sourcemap.MappingAt(cw.Mapper, old(sourcemap.NumMappings(cw.Mapper))).GeneratedLine == old(sourcemap.GenLine(cw.Mapper)) && sourcemap.MappingAt(cw.Mapper, old(sourcemap.NumMappings(cw.Mapper))).GeneratedColumn == old(sourcemap.GenCol(cw.Mapper)) && sourcemap.MappingAt(cw.Mapper, old(sourcemap.NumMappings(cw.Mapper))).SourceLine == pos.Line && sourcemap.MappingAt(cw.Mapper, old(sourcemap.NumMappings(cw.Mapper))).SourceColumn == pos.Column && !sourcemap.MappingAt(cw.Mapper, old(sourcemap.NumMappings(cw.Mapper))).HasName)
+//@   ensures [at-token.compact@C08] implies(!cw.PrettyPrint, len(cw.pendings) == 0)
+//@   ensures [at-token.pretty@C08] implies(cw.PrettyPrint && cw.Mapper != nil, len(cw.pendings) == 0)
+
+//@ func (cw *CodeWriter) AddNamedMapping
+//@   props C08
+//@   use cwFrame
+//@   ensures [unchanged] eq(cw.Builder, old(cw.Builder)) && eq(cw.pendings, old(cw.pendings)) && cw.IndentLevel == old(cw.IndentLevel)
+//@   ensures [recorded@C08] cw.Mapper == nil || (sourcemap.NumMappings(cw.Mapper) == old(sourcemap.NumMappings(cw.Mapper))+1 && sourcemap.MappingAt(cw.Mapper, old(sourcemap.NumMappings(cw.Mapper))).GeneratedLine == old(sourcemap.GenLine(cw.Mapper)) && sourcemap.MappingAt(cw.Mapper, old(sourcemap.NumMappings(cw.Mapper))).GeneratedColumn == old(sourcemap.GenCol(cw.Mapper)) && sourcemap.MappingAt(cw.Mapper, old(sourcemap.NumMappings(cw.Mapper))).SourceLine == sourceLine && sourcemap.MappingAt(cw.Mapper, old(sourcemap.NumMappings(cw.Mapper))).SourceColumn == sourceColumn && sourcemap.MappingAt(cw.Mapper, old(sourcemap.NumMappings(cw.Mapper))).HasName && sourcemap.NameAt(cw.Mapper, sourcemap.MappingAt(cw.Mapper, old(sourcemap.NumMappings(cw.Mapper))).NameIndex) == name)
+//@   ensures [at-token.compact@C08] implies(!cw.PrettyPrint, len(cw.pendings) == 0)
+//@   ensures [at-token.pretty@C08] implies(cw.PrettyPrint && cw.Mapper != nil, len(cw.pendings) == 0)
+
+// Comments: compact output contains none; in pretty mode every write is comment text, "//", a space, a line break or
+// indentation, and the next token starts on a fresh line.
+//@ func (cw *CodeWriter) WriteLeadingComments
+//@   props C15 C06 C08
+//@   use cwFrame
+//@   loop 1 invariant [frame] cwInv(cw) && J(cw) && cw.IndentLevel == old(cw.IndentLevel) && cw.PrettyPrint && (cw.Mapper == nil || sourcemap.NumMappings(cw.Mapper) == old(sourcemap.NumMappings(cw.Mapper)))
+//@   ensures [compact.none@C15] implies(!cw.PrettyPrint, eq(cw.Builder, old(cw.Builder)) && len(cw.pendings) == 0)
+//@   ensures [empty.none@C15] implies(len(comments) == 0, eq(cw.Builder, old(cw.Builder)) && eq(cw.pendings, old(cw.pendings)))
+//@   ensures [fresh-line@C15] implies(cw.PrettyPrint && len(comments) > 0, len(cw.pendings) == 2 && cw.pendings[0] == '\n' && cw.pendings[1] == '\t')
+//@   ensures [indent] cw.IndentLevel == old(cw.IndentLevel)
+//@   ensures [no-mapping@C08] cw.Mapper == nil || sourcemap.NumMappings(cw.Mapper) == old(sourcemap.NumMappings(cw.Mapper))
+
+// ---- printers ----
+// Every node prints through the code writer only. The [syntax] clauses state, as the exact sequence of writer calls
+// (layout calls ignored), the node's concrete syntax in source order: leading comments of a token, its mapping,
+// its text, children. They carry C01 (tokens re-emitted in order), C15 (comments of every stored token replayed once,
+// immediately before the token), C08 (mapping immediately before the token text) and C03 (parenthesisation).
+
+func slotWriteTo(n Node, cw *CodeWriter) {}
+func slotPrecedence(e Expression) int     { return 0 }
+
+// printing leaves the indentation level as it found it
+//@ group writeTo
+//@   ensures [indent@C06] cw.IndentLevel == old(cw.IndentLevel)
+
+//@ func slotWriteTo
+//@   props C01 C03 C06 C08 C15 C14 C11
+//@   abstract
+//@   use cwFrame writeTo
+
+//@ func slotPrecedence
+//@   props C03
+//@   abstract
+
+//@ ifacecontract WriteTo ast.slotWriteTo
+//@ ifacecontract Precedence ast.slotPrecedence
+
+
+//@ func (p *Program) WriteTo
+//@   props C01 C03 C06 C08 C15 C14
+//@   use cwFrame writeTo
+//@   assumes [wf] forall(0, len(p.Statements), func(k int) bool { return !isNil(p.Statements[k]) })
+//@   loop 1 invariant [frame] cwInv(cw) && J(cw) && cw.IndentLevel == atEntry(cw.IndentLevel)
+//@   loop 1 before [syntax] traceSeq()
+//@   loop 1 each [syntax] traceSeq(evNode(p.Statements[i]))
+//@   ensures [syntax] traceSeq()
+
+//@ func (ls *LetStatement) WriteTo
+//@   props C01 C03 C06 C08 C15 C14
+//@   use cwFrame writeTo
+//@   assumes [wf] ls.Name != nil && (ls.Value == nil || !isNil(ls.Value))
+//@   ensures [syntax] traceSeq(evLC(ls.Token.LeadingComments), evMap(ls.Token.Start), evStr("let "), evChild(ls.Name), evOpt(ls.Value != nil, evRune('=')), evOpt(ls.Value != nil, evNode(ls.Value)), evSemi())
+
+//@ func (rs *ReturnStatement) WriteTo
+//@   props C01 C03 C06 C08 C15 C14
+//@   use cwFrame writeTo
+//@   assumes [wf] rs.ReturnValue == nil || !isNil(rs.ReturnValue)
+//@   ensures [syntax] traceSeq(evLC(rs.Token.LeadingComments), evMap(rs.Token.Start), evStr("return"), evOpt(rs.ReturnValue != nil, evRune(' ')), evOpt(rs.ReturnValue != nil, evNode(rs.ReturnValue)), evSemi())
+
+//@ func (es *ExpressionStatement) WriteTo
+//@   props C01 C03 C06 C08 C15 C14
+//@   use cwFrame writeTo
+//@   assumes [wf] es.Expression == nil || !isNil(es.Expression)
+//@   ensures [syntax] traceSeq(evOpt(es.Expression != nil, evNode(es.Expression)), evOpt(es.Expression != nil, evSemi()))
+
+//@ func (fd *FunctionDeclaration) WriteTo
+//@   props C01 C03 C06 C08 C15 C14
+//@   use cwFrame writeTo
+//@   assumes [wf] fd.Name != nil && fd.Body != nil && forall(0, len(fd.Parameters), func(k int) bool { return fd.Parameters[k] != nil })
+//@   loop 1 invariant [frame] cwInv(cw) && J(cw) && cw.IndentLevel == atEntry(cw.IndentLevel)
+//@   loop 1 before [syntax] traceSeq(evLC(fd.Token.LeadingComments), evMap(fd.Token.Start), evStr("function "), evChild(fd.Name), evRune('('))
+//@   loop 1 each [syntax] traceSeq(evOpt(i > 0, evRune(',')), evChild(fd.Parameters[i]))
+//@   ensures [syntax] traceSeq(evRune(')'), evChild(fd.Body))
+
+//@ func (bs *BlockStatement) WriteTo
+//@   props C01 C03 C06 C08 C15 C14
+//@   use cwFrame writeTo
+//@   assumes [wf] forall(0, len(bs.Statements), func(k int) bool { return !isNil(bs.Statements[k]) })
+//@   loop 1 invariant [frame] cwInv(cw) && J(cw) && cw.IndentLevel == ite(cw.PrettyPrint, atEntry(cw.IndentLevel), old(cw.IndentLevel)) && implies(cw.PrettyPrint, cw.IndentLevel == old(cw.IndentLevel)+1)
+//@   loop 1 before [syntax] traceSeq(evLC(bs.Token.LeadingComments), evMap(bs.Token.Start), evRune('{'))
+//@   loop 1 each [syntax] traceSeq(evNode(bs.Statements[i]))
+//@   ensures [syntax] traceSeq(evLC(bs.RBrace.LeadingComments), evRune('}'))
+
+//@ func (ifs *IfStatement) WriteTo
+//@   props C01 C03 C06 C08 C15 C14
+//@   use cwFrame writeTo
+//@   assumes [wf] !isNil(ifs.Condition) && !isNil(ifs.ThenBranch) && (ifs.ElseBranch == nil || !isNil(ifs.ElseBranch))
+//@   ensures [syntax] traceSeq(evLC(ifs.Token.LeadingComments), evMap(ifs.Token.Start), evStr("if"), evRune('('), evNode(ifs.Condition), evRune(')'), evNode(ifs.ThenBranch), evOpt(ifs.ElseBranch != nil, evStr(" else ")), evOpt(ifs.ElseBranch != nil, evNode(ifs.ElseBranch)))
+
+//@ func (ws *WhileStatement) WriteTo
+//@   props C01 C03 C06 C08 C15 C14
+//@   use cwFrame writeTo
+//@   assumes [wf] !isNil(ws.Condition) && !isNil(ws.Body)
+//@   ensures [syntax] traceSeq(evLC(ws.Token.LeadingComments), evMap(ws.Token.Start), evStr("while"), evRune('('), evNode(ws.Condition), evRune(')'), evNode(ws.Body))
+
+//@ func (fs *ForStatement) WriteTo
+//@   props C01 C03 C06 C08 C15 C14
+//@   use cwFrame writeTo
+//@   assumes [wf] (fs.Init == nil || !isNil(fs.Init)) && (fs.Condition == nil || !isNil(fs.Condition)) && (fs.Update == nil || !isNil(fs.Update)) && !isNil(fs.Body)
+//@   ensures [syntax] traceSeq(evLC(fs.Token.LeadingComments), evMap(fs.Token.Start), evStr("for"), evRune('('), evOpt(fs.Init != nil, evNode(fs.Init)), evRune(';'), evOpt(fs.Condition != nil, evNode(fs.Condition)), evRune(';'), evOpt(fs.Update != nil, evNode(fs.Update)), evRune(')'), evNode(fs.Body))
+
+//@ func (i *Identifier) WriteTo
+//@   props C01 C03 C06 C08 C15 C14
+//@   use cwFrame writeTo
+//@   ensures [syntax] traceSeq(evLC(i.Token.LeadingComments), evNamedMap(i.Token.Start.Line, i.Token.Start.Column, i.Value), evStr(i.Value))
+
+//@ func (il *IntegerLiteral) WriteTo
+//@   props C01 C03 C06 C08 C15 C14 C07
+//@   use cwFrame writeTo
+//@   ensures [syntax] traceSeq(evLC(il.Token.LeadingComments), evMap(il.Token.Start), evStr(il.Token.Literal))
+
+//@ func (fl *FloatLiteral) WriteTo
+//@   props C01 C03 C06 C08 C15 C14 C07
+//@   use cwFrame writeTo
+//@   ensures [syntax] traceSeq(evLC(fl.Token.LeadingComments), evMap(fl.Token.Start), evStr(fl.Token.Literal))
+
+//@ func (bl *BooleanLiteral) WriteTo
+//@   props C01 C03 C06 C08 C15 C14 C07
+//@   use cwFrame writeTo
+//@   ensures [syntax] traceSeq(evLC(bl.Token.LeadingComments), evMap(bl.Token.Start), evStr(bl.Token.Literal))
+
+//@ func (nl *NullLiteral) WriteTo
+//@   props C01 C03 C06 C08 C15 C14
+//@   use cwFrame writeTo
+//@   ensures [syntax] traceSeq(evLC(nl.Token.LeadingComments), evMap(nl.Token.Start), evStr("null"))
+
+//@ func (sl *StringLiteral) WriteTo
+//@   props C01 C03 C06 C08 C15 C14 C07
+//@   use cwFrame writeTo
+//@   ensures [syntax] traceSeq(evLC(sl.Token.LeadingComments), evMap(sl.Token.Start), evRune('"'), evStr(sl.Value), evRune('"'))
+
+//@ func (sl *MultiStringLiteral) WriteTo
+//@   props C01 C03 C06 C08 C15 C14 C07
+//@   use cwFrame writeTo
+//@   ensures [syntax] traceSeq(evLC(sl.Token.LeadingComments), evMap(sl.Token.Start), evRune('`'), evStr(sl.Value), evRune('`'))
+
+//@ func (le *LetExpression) WriteTo
+//@   props C01 C03 C06 C08 C15 C14
+//@   use cwFrame writeTo
+//@   assumes [wf] le.Name != nil && (le.Value == nil || !isNil(le.Value))
+//@   ensures [syntax] traceSeq(evLC(le.Token.LeadingComments), evMap(le.Token.Start), evStr("let "), evChild(le.Name), evOpt(le.Value != nil, evRune('=')), evOpt(le.Value != nil, evNode(le.Value)))
+
+//@ func (be *BinaryExpression) WriteTo
+//@   props C01 C03 C06 C08 C15 C14
+//@   use cwFrame writeTo
+//@   assumes [wf] !isNil(be.Left) && !isNil(be.Right)
+//@   ensures [parens.subject@C03] ncalls("slotPrecedence") == 2 && callArg[Expression]("slotPrecedence", 0, 0) == be.Left && callArg[Expression]("slotPrecedence", 1, 0) == be.Right
+//@   ensures [syntax] traceSeq(evOpt(parensLeft(astLevel(be.Token.Type), callResult[int]("slotPrecedence", 0)), evRune('(')), evNode(be.Left), evOpt(parensLeft(astLevel(be.Token.Type), callResult[int]("slotPrecedence", 0)), evRune(')')), evLC(be.Token.LeadingComments), evMap(be.Token.Start), evStr(be.Operator), evOpt(parensRight(astLevel(be.Token.Type), callResult[int]("slotPrecedence", 1)), evRune('(')), evNode(be.Right), evOpt(parensRight(astLevel(be.Token.Type), callResult[int]("slotPrecedence", 1)), evRune(')')))
+
+//@ func (ue *UnaryExpression) WriteTo
+//@   props C01 C03 C06 C08 C15 C14
+//@   use cwFrame writeTo
+//@   assumes [wf] !isNil(ue.Right)
+//@   ensures [parens.subject@C03] ncalls("slotPrecedence") == 1 && callArg[Expression]("slotPrecedence", 0, 0) == ue.Right
+//@   ensures [syntax] traceSeq(evLC(ue.Token.LeadingComments), evMap(ue.Token.Start), evStr(ue.Operator), evOpt(parensLeft(PrecedenceUnary, callResult[int]("slotPrecedence", 0)), evRune('(')), evNode(ue.Right), evOpt(parensLeft(PrecedenceUnary, callResult[int]("slotPrecedence", 0)), evRune(')')))
+
+//@ func (pe *PostfixExpression) WriteTo
+//@   props C01 C03 C06 C08 C15 C14
+//@   use cwFrame writeTo
+//@   assumes [wf] !isNil(pe.Left)
+//@   ensures [parens.subject@C03] ncalls("slotPrecedence") == 1 && callArg[Expression]("slotPrecedence", 0, 0) == pe.Left
+//@   ensures [syntax] traceSeq(evLC(pe.Token.LeadingComments), evOpt(parensLeft(PrecedencePostfix, callResult[int]("slotPrecedence", 0)), evRune('(')), evNode(pe.Left), evOpt(parensLeft(PrecedencePostfix, callResult[int]("slotPrecedence", 0)), evRune(')')), evMap(pe.Token.Start), evStr(pe.Operator))
+
+//@ func (ge *GroupedExpression) WriteTo
+//@   props C01 C03 C06 C08 C15 C14
+//@   use cwFrame writeTo
+//@   assumes [wf] !isNil(ge.Expression)
+//@   ensures [syntax] traceSeq(evLC(ge.Token.LeadingComments), evMap(ge.Token.Start), evRune('('), evNode(ge.Expression), evLC(ge.RParen.LeadingComments), evRune(')'))
+
+//@ func (ce *CallExpression) WriteTo
+//@   props C01 C03 C06 C08 C15 C14
+//@   use cwFrame writeTo
+//@   assumes [wf] !isNil(ce.Function) && forall(0, len(ce.Arguments), func(k int) bool { return !isNil(ce.Arguments[k]) })
+//@   loop 1 invariant [frame] cwInv(cw) && J(cw) && implies(cw.PrettyPrint, cw.IndentLevel == old(cw.IndentLevel)+1) && implies(!cw.PrettyPrint, cw.IndentLevel == old(cw.IndentLevel))
+//@   loop 1 before [syntax] traceSeq(evNode(ce.Function), evLC(ce.Token.LeadingComments), evMap(ce.Token.Start), evRune('('))
+//@   loop 1 each [syntax] traceSeq(evOpt(i > 0, evRune(',')), evNode(ce.Arguments[i]))
+//@   ensures [syntax] traceSeq(evRune(')'))
+
+//@ func (me *MemberExpression) WriteTo
+//@   props C01 C03 C06 C08 C15 C14
+//@   use cwFrame writeTo
+//@   assumes [wf] !isNil(me.Object) && !isNil(me.Property)
+//@   ensures [syntax] traceSeq(evNode(me.Object), evLC(me.Token.LeadingComments), evMap(me.Token.Start), evOpt(me.Computed, evRune('[')), evOpt(!me.Computed, evRune('.')), evNode(me.Property), evOpt(me.Computed, evRune(']')))
+
+//@ func (ae *AssignmentExpression) WriteTo
+//@   props C01 C03 C06 C08 C15 C14
+//@   use cwFrame writeTo
+//@   assumes [wf] !isNil(ae.Left) && !isNil(ae.Value)
+//@   ensures [syntax] traceSeq(evNode(ae.Left), evLC(ae.Token.LeadingComments), evMap(ae.Token.Start), evRune('='), evNode(ae.Value))
+
+//@ func (cae *CompoundAssignmentExpression) WriteTo
+//@   props C01 C03 C06 C08 C15 C14
+//@   use cwFrame writeTo
+//@   assumes [wf] !isNil(cae.Left) && !isNil(cae.Value)
+//@   ensures [syntax] traceSeq(evNode(cae.Left), evLC(cae.Token.LeadingComments), evMap(cae.Token.Start), evStr(cae.Operator), evRune('='), evNode(cae.Value))
+
+//@ func (fe *FunctionExpression) WriteTo
+//@   props C01 C03 C06 C08 C15 C14
+//@   use cwFrame writeTo
+//@   assumes [wf] fe.Body != nil && forall(0, len(fe.Parameters), func(k int) bool { return fe.Parameters[k] != nil })
+//@   loop 1 invariant [frame] cwInv(cw) && J(cw) && cw.IndentLevel == atEntry(cw.IndentLevel)
+//@   loop 1 before [syntax] traceSeq(evLC(fe.Token.LeadingComments), evMap(fe.Token.Start), evStr("function"), evOpt(fe.Name != nil, evRune(' ')), evOpt(fe.Name != nil, evChild(fe.Name)), evRune('('))
+//@   loop 1 each [syntax] traceSeq(evOpt(i > 0, evRune(',')), evChild(fe.Parameters[i]))
+//@   ensures [syntax] traceSeq(evRune(')'), evChild(fe.Body))
+
+//@ func (al *ArrayLiteral) WriteTo
+//@   props C01 C03 C06 C08 C15 C14
+//@   use cwFrame writeTo
+//@   assumes [wf] forall(0, len(al.Elements), func(k int) bool { return !isNil(al.Elements[k]) })
+//@   loop 1 invariant [frame] cwInv(cw) && J(cw) && implies(cw.PrettyPrint, cw.IndentLevel == old(cw.IndentLevel)+1) && implies(!cw.PrettyPrint, cw.IndentLevel == old(cw.IndentLevel))
+//@   loop 1 before [syntax] traceSeq(evLC(al.Token.LeadingComments), evMap(al.Token.Start), evRune('['))
+//@   loop 1 each [syntax] traceSeq(evOpt(i > 0, evRune(',')), evNode(al.Elements[i]))
+//@   ensures [syntax] traceSeq(evLC(al.RBracket.LeadingComments), evRune(']'))
+
+//@ func (ol *ObjectLiteral) WriteTo
+//@   props C01 C03 C06 C08 C15 C14
+//@   use cwFrame writeTo
+//@   assumes [wf] forall(0, len(ol.Properties), func(k int) bool { return !isNil(ol.Properties[k].Key) && !isNil(ol.Properties[k].Value) })
+//@   loop 1 invariant [frame] cwInv(cw) && J(cw) && implies(cw.PrettyPrint, cw.IndentLevel == old(cw.IndentLevel)+1) && implies(!cw.PrettyPrint, cw.IndentLevel == old(cw.IndentLevel))
+//@   loop 1 before [syntax] traceSeq(evLC(ol.Token.LeadingComments), evMap(ol.Token.Start), evRune('{'))
+//@   loop 1 each [syntax] traceSeq(evOpt(i > 0, evRune(',')), evNode(ol.Properties[i].Key), evRune(':'), evNode(ol.Properties[i].Value))
+//@   ensures [syntax] traceSeq(evLC(ol.RBrace.LeadingComments), evRune('}'))
+
+// ---- precedence of node kinds (C03) ----
+
+//@ func (le *LetExpression) Precedence
+//@   props C03
+//@   ensures [level@C03] result == PrecedenceAssignment
+
+//@ func (ue *UnaryExpression) Precedence
+//@   props C03
+//@   ensures [level@C03] result == PrecedenceUnary
+
+//@ func (pe *PostfixExpression) Precedence
+//@   props C03
+//@   ensures [level@C03] result == PrecedencePostfix
+
+//@ func (ce *CallExpression) Precedence
+//@   props C03
+//@   ensures [level@C03] result == PrecedenceCall
+
+//@ func (me *MemberExpression) Precedence
+//@   props C03
+//@   ensures [level@C03] result == PrecedenceMember
+
+//@ func (ae *AssignmentExpression) Precedence
+//@   props C03
+//@   ensures [level@C03] result == PrecedenceAssignment
+
+//@ func (cae *CompoundAssignmentExpression) Precedence
+//@   props C03
+//@   ensures [level@C03] result == PrecedenceAssignment
+
+//@ func (i *Identifier) Precedence
+//@   props C03
+//@   ensures [level@C03] result == PrecedenceAtomic
+
+//@ func (il *IntegerLiteral) Precedence
+//@   props C03
+//@   ensures [level@C03] result == PrecedenceAtomic
+
+//@ func (fl *FloatLiteral) Precedence
+//@   props C03
+//@   ensures [level@C03] result == PrecedenceAtomic
+
+//@ func (sl *StringLiteral) Precedence
+//@   props C03
+//@   ensures [level@C03] result == PrecedenceAtomic
+
+//@ func (sl *MultiStringLiteral) Precedence
+//@   props C03
+//@   ensures [level@C03] result == PrecedenceAtomic
+
+//@ func (bl *BooleanLiteral) Precedence
+//@   props C03
+//@   ensures [level@C03] result == PrecedenceAtomic
+
+//@ func (nl *NullLiteral) Precedence
+//@   props C03
+//@   ensures [level@C03] result == PrecedenceAtomic
+
+//@ func (ge *GroupedExpression) Precedence
+//@   props C03
+//@   ensures [level@C03] result == PrecedenceAtomic
+
+//@ func (fe *FunctionExpression) Precedence
+//@   props C03
+//@   ensures [level@C03] result == PrecedenceAtomic
+
+//@ func (al *ArrayLiteral) Precedence
+//@   props C03
+//@   ensures [level@C03] result == PrecedenceAtomic
+
+//@ func (ol *ObjectLiteral) Precedence
+//@   props C03
+//@   ensures [level@C03] result == PrecedenceAtomic
+
+//@ func (be *BinaryExpression) Precedence
+//@   props C03
+//@   ensures [level@C03] result == astLevel(be.Token.Type)
